@@ -1154,46 +1154,65 @@ func runTAB08(p *Prog, r *RuleRun) {
 		return true
 	})
 	r.Check(arr8, "set:width", spos, "the encoded value is exactly 8 bytes", "SetUint64's buffer is not [8]byte")
-	// length checks
+	// length checks: GetUint64's CFG is evaluated for each length of the stored value
 	zero, eight := false, false
-	ast.Inspect(get.Body, func(n ast.Node) bool {
-		ifs, ok := n.(*ast.IfStmt)
-		if !ok {
-			return true
+	if gfn := p.Func("", "WAL.GetUint64"); gfn != nil {
+		gspec := &fdSpec{
+			Symbol: func(v ssa.Value) string {
+				if c, ok := v.(*ssa.Call); ok && isBuiltinCall(c, "len") && len(c.Call.Args) == 1 {
+					if ex, ok := c.Call.Args[0].(*ssa.Extract); ok && ex.Index == 0 {
+						return "L"
+					}
+				}
+				return ""
+			},
+			Return: func(ret *ssa.Return, res []ssa.Value, eval func(ssa.Value) fdVal) string {
+				if len(res) != 2 {
+					return "?"
+				}
+				if ex, ok := res[1].(*ssa.Extract); ok && ex.Index == 1 {
+					return "GETERR" // the stable store's own error, passed on
+				}
+				val := "other"
+				switch x := res[0].(type) {
+				case *ssa.Const:
+					if x.Value != nil && x.Uint64() == 0 {
+						val = "0"
+					}
+				case *ssa.Call:
+					if strings.HasSuffix(eventName(x), "ittleEndian.Uint64") {
+						val = "LE64"
+					}
+				}
+				if c, ok := res[1].(*ssa.Const); ok && c.IsNil() {
+					return val + ",nil"
+				}
+				return val + ",err"
+			}}
+		outcomes := func(L int64) map[string]bool {
+			out := map[string]bool{}
+			for _, t := range fdRun(gfn, gspec, map[string]int64{"L": L}) {
+				parts := strings.Split(t, " > ")
+				if last := parts[len(parts)-1]; last != "GETERR" {
+					out[last] = true
+				}
+			}
+			return out
 		}
-		be, ok := ifs.Cond.(*ast.BinaryExpr)
-		if !ok {
-			return true
-		}
-		ce, ok := be.X.(*ast.CallExpr)
-		if !ok {
-			return true
-		}
-		if id, ok := ce.Fun.(*ast.Ident); !ok || id.Name != "len" {
-			return true
-		}
-		c, ok := constInt(info, be.Y)
-		if !ok || len(ifs.Body.List) == 0 {
-			return true
-		}
-		rs, ok := ifs.Body.List[len(ifs.Body.List)-1].(*ast.ReturnStmt)
-		if !ok || len(rs.Results) != 2 {
-			return true
-		}
-		errNil := false
-		if id, ok := rs.Results[1].(*ast.Ident); ok && id.Name == "nil" {
-			errNil = true
-		}
-		if be.Op == token.EQL && c == 0 && errNil {
-			if v, ok := constInt(info, rs.Results[0]); ok && v == 0 {
-				zero = true
+		only := func(m map[string]bool, want string) bool { return len(m) == 1 && m[want] }
+		zero = only(outcomes(0), "0,nil")
+		eight = only(outcomes(8), "LE64,nil")
+		for _, L := range []int64{1, 4, 7, 9, 16} {
+			for o := range outcomes(L) {
+				if !strings.HasSuffix(o, ",err") {
+					eight = false
+				}
+			}
+			if len(outcomes(L)) == 0 {
+				eight = false
 			}
 		}
-		if be.Op == token.NEQ && c == 8 && !errNil {
-			eight = true
-		}
-		return true
-	})
+	}
 	r.Check(zero, "get:unset", gpos, "an unset key (empty value) reads as 0 with nil error", "GetUint64 does not return (0, nil) for an unset key")
 	r.Check(eight, "get:length", gpos, "values of any other length than 8 are an error", "GetUint64 does not reject values whose length is not 8")
 }
